@@ -652,3 +652,114 @@ def in_cutoff_window(X):
     """Has X^T X an eigenvalue in (1e-12, 1e-6] - where `vC**2 > rcond` and `vC > rcond` differ?"""
     v = np.linalg.eigvalsh(X.T @ X)
     return bool(np.any((v > 1e-11) & (v <= 1e-6)))
+
+
+# ------------------------------------------------------------------------------ family fit_transform
+def run_fit_transform(ctx, report):
+    """fit_transform(X, Y[, W]) against fit(X, Y[, W]).transform(X) and against what the model says
+    transform computes (C14_transform_general: (X - mean_) @ pxt_), on centred AND non-centred X / Y,
+    regressors with and without intercept, precomputed Yhat with a consistent, an inconsistent or no
+    W, 1-D / 2-D y, both spaces.  In the models the composite is by definition transform after fit
+    (sklearn's TransformerMixin), so the two must agree to rounding (rel 1e-8; they are the same
+    floating-point computation on the unchanged code)."""
+    from sklearn.linear_model import LinearRegression, Ridge
+    from skmatter.decomposition import PCovR
+    rng = ctx.rng
+    ncfg = 150 if ctx.quick else 1200
+    stats = dict(cases=0, agree=0, not_centred=0, intercept=0, precomputed_inconsistent_W=0,
+                 spaces={}, y1d=0)
+    for ci in range(ncfg):
+        ds = P.gen_dataset(rng, ctx.quick, family=["tall", "wide", "square", "offset", "wide"][ci % 5])
+        g = np_rng_from(rng)
+        X, Y = ds["X"].copy(), ds["Y"].copy()
+        shift = ci % 3
+        if shift >= 1:                                    # X not column-centred (legal; fit warns)
+            X = X + g.uniform(-1.0, 1.0, size=(1, ds["m"]))
+        if shift == 2:                                    # targets not centred either
+            Y = Y + g.uniform(-2.0, 2.0, size=(1, ds["p"]))
+        kind = rng.choice(["ridge", "ridge_icpt", "linreg", "linreg_icpt", "default", "pre_W", "pre_badW", "pre_noW"])
+        y1d = ds["p"] == 1 and rng.random() < 0.5
+        k = rng.randint(1, min(ds["n"], ds["m"]))
+        space = rng.choice(["feature", "sample", "sample", "auto"])
+        a = rng.choice([0.1, 0.5, 0.9, 1.0])
+        cfg = dict(kind=kind, y1d=y1d, k=k, space=space, a=a, shift=shift, alpha=rng.choice([1e-3, 0.1, 1.0]))
+        kw = {}
+        yfit = Y[:, 0] if y1d else Y
+        if kind.startswith("pre"):
+            reg = "precomputed"
+            W0 = np.linalg.solve(X.T @ X + cfg["alpha"] * np.eye(ds["m"]), X.T @ Y)
+            Yh = X @ W0
+            yfit = Yh[:, 0] if y1d else Yh
+            if kind == "pre_W":
+                kw["W"] = W0
+            elif kind == "pre_badW":                      # weights that do NOT reproduce Yhat
+                kw["W"] = W0 + 0.3 * g.normal(size=W0.shape)
+                stats["precomputed_inconsistent_W"] += 1
+        elif kind == "default":
+            reg = None
+        elif kind.startswith("ridge"):
+            reg = Ridge(alpha=cfg["alpha"], fit_intercept=kind.endswith("icpt"), tol=1e-12)
+        else:
+            reg = LinearRegression(fit_intercept=kind.endswith("icpt"))
+
+        def make():
+            return PCovR(mixing=a, n_components=k, space=space, svd_solver="full", regressor=reg, random_state=0)
+        stats["cases"] += 1
+        stats["not_centred"] += int(shift >= 1)
+        stats["intercept"] += int(kind.endswith("icpt"))
+        stats["y1d"] += int(y1d)
+        case = dict(fit_transform=dict(X=X.tolist(), Y=np.asarray(yfit).tolist(), W=(kw["W"].tolist() if "W" in kw else None), cfg=cfg))
+        with warnings.catch_warnings():
+            warnings.simplefilter("ignore")
+            try:
+                e1 = make().fit(X, yfit, **kw)
+                T1 = e1.transform(X)
+                e2 = make()
+                T2 = e2.fit_transform(X, yfit, **kw)
+                Tm = (X - e2.mean_) @ e2.pxt_             # what the model's transform_prog computes
+            except Exception as e:                       # noqa
+                report(ctx, "C14 fails on the implementation: fit / transform / fit_transform raised %s: %s (%s)"
+                       % (type(e).__name__, str(e)[:140], cfg), dict(case=case), found_input=True)
+                continue
+        stats["spaces"][e1.space_] = stats["spaces"].get(e1.space_, 0) + 1
+        sc = 1.0 + float(np.abs(T1).max())
+        d_model = float(np.abs(np.asarray(T2) - Tm).max()) / sc
+        d_pair = float(np.abs(np.asarray(T2) - T1).max()) / sc
+        if d_model > 1e-8:
+            report(ctx, "C14 fails on the implementation: fit_transform(X, Y) is not (X - mean_) @ pxt_ "
+                   "(rel dev %.3g; %s space, %s, X %scentred)" % (d_model, e2.space_, kind, "not " if shift else ""),
+                   dict(case=case), found_input=True)
+        elif d_pair > 1e-8:
+            report(ctx, "correspondence broken: fit_transform(X, Y) differs from fit(X, Y).transform(X) (rel dev %.3g)" % d_pair,
+                   dict(case=case), found_input=False)
+        else:
+            stats["agree"] += 1
+    return stats
+
+
+def np_rng_from(rng):
+    return np.random.default_rng(rng.getrandbits(62))
+
+
+def replay_fit_transform(obj):
+    from sklearn.linear_model import LinearRegression, Ridge
+    from skmatter.decomposition import PCovR
+    cfg = obj["cfg"]
+    X = np.asarray(obj["X"], dtype=float)
+    y = np.asarray(obj["Y"], dtype=float)
+    kw = {"W": np.asarray(obj["W"], dtype=float)} if obj.get("W") is not None else {}
+    kind = cfg["kind"]
+    reg = ("precomputed" if kind.startswith("pre") else None if kind == "default" else
+           Ridge(alpha=cfg["alpha"], fit_intercept=kind.endswith("icpt"), tol=1e-12) if kind.startswith("ridge")
+           else LinearRegression(fit_intercept=kind.endswith("icpt")))
+    with warnings.catch_warnings():
+        warnings.simplefilter("ignore")
+        try:
+            e2 = PCovR(mixing=cfg["a"], n_components=cfg["k"], space=cfg["space"], svd_solver="full",
+                       regressor=reg, random_state=0)
+            T2 = e2.fit_transform(X, y, **kw)
+        except Exception as e:                           # noqa
+            return "raised %s: %s" % (type(e).__name__, str(e)[:140])
+    Tm = (X - e2.mean_) @ e2.pxt_
+    d = float(np.abs(np.asarray(T2) - Tm).max()) / (1.0 + float(np.abs(Tm).max()))
+    return ("fit_transform(X, Y) is not (X - mean_) @ pxt_ (rel dev %.3g)" % d) if d > 1e-8 else None
